@@ -735,3 +735,109 @@ PROPERTIES["C17"] = {
             "Compared: Next outcomes and the handler log (name, typed arguments). Non-trivial: >= 4 arguments.",
     "assumptions": [],
 }
+
+
+# ------------------------------------------------------------------ builtins (C19), fmt, parse
+import struct
+from fractions import Fraction
+import math
+
+
+def _f(bits):
+    return struct.unpack("<d", struct.pack("<Q", bits & 0xFFFFFFFFFFFFFFFF))[0]
+
+
+def _num(v):
+    return _f(v[1]) if tag(v) == "num" else None
+
+
+def d23_class(x, n, y):
+    """round_places result outside the strict half unit but inside the envelope proved for the
+    binary64 evaluation round(x*10^n)/10^n."""
+    X, Y = Fraction(x), Fraction(y)
+    err = abs(Y - X)
+    half = Fraction(1, 2) / Fraction(10) ** n
+    return err > half and err <= half + abs(X) / Fraction(2) ** 51
+
+
+def builtin_oracle(case, obs, exp):
+    name, args = str(case[1]), case[2]
+    if tag(obs) == "panic" or tag(obs) in ("CRASH", "HARNESS-PANIC"):
+        return "violation", "the built-in panicked"
+    xs = [_num(a) for a in args]
+    if name in ("floor", "ceil", "round", "inc", "dec", "decimal", "integer") and len(args) == 1 and xs[0] is not None:
+        x = xs[0]
+        if math.isfinite(x) and abs(x) < 2.0 ** 52:
+            if tag(obs) != "val" or tag(obs[1]) != "num":
+                return "violation", "%s(%r) did not return a number" % (name, x)
+            y = _f(obs[1][1])
+            if not math.isfinite(y):
+                return "violation", "%s(%r) = %r" % (name, x, y)
+            X, Y = Fraction(x), Fraction(y)
+            ok = {
+                "floor": Y.denominator == 1 and Y <= X < Y + 1,
+                "ceil": Y.denominator == 1 and Y - 1 < X <= Y,
+                "inc": Y.denominator == 1 and X < Y <= X + 1,
+                "dec": Y.denominator == 1 and X - 1 <= Y < X,
+                "integer": Y.denominator == 1 and abs(Y) <= abs(X) < abs(Y) + 1 and (Y == 0 or (Y > 0) == (X > 0)),
+                "round": Y.denominator == 1 and abs(Y - X) <= Fraction(1, 2),
+                "decimal": Y == X - math.trunc(X),
+            }[name]
+            if not ok:
+                return "violation", "%s(%r) = %r breaks its contract" % (name, x, y)
+    if name == "round_places" and len(args) == 2 and None not in xs:
+        x, n = xs
+        if math.isfinite(x) and abs(x) < 2.0 ** 52 and n in range(0, 9):
+            if tag(obs) != "val" or tag(obs[1]) != "num":
+                return "violation", "round_places(%r, %r) did not return a number" % (x, n)
+            y = _f(obs[1][1])
+            X, Y = Fraction(x), Fraction(y)
+            half = Fraction(1, 2) / Fraction(10) ** int(n)
+            if abs(Y - X) > half + abs(X) / Fraction(2) ** 51 + Fraction(1, 2 ** 1074):
+                return "violation", "round_places(%r, %d) = %r is further than half a unit of that place (even allowing for the rounding of x*10^n)" % (x, int(n), y)
+    if obs == exp:
+        return "ok", "contract holds"
+    return "unknown", "the result satisfies the checked contract but differs from the model's"
+
+
+def builtin_known_class(k, case, exp_line, obs_line):
+    return False
+
+
+def builtin_features(case):
+    name, args = str(case[1]), case[2]
+    xs = [_num(a) for a in args]
+    cls = []
+    for x in xs:
+        if x is None:
+            cls.append("non-number")
+        elif not math.isfinite(x):
+            cls.append("non-finite")
+        elif x == int(x):
+            cls.append("integral")
+        elif abs(x - round(x)) == 0.5:
+            cls.append("half-way")
+        elif abs(x) >= 2.0 ** 52:
+            cls.append("big")
+        else:
+            cls.append("fractional")
+    return sexp.dump(case), bool(xs) and xs[0] is not None and math.isfinite(xs[0]) and xs[0] != int(xs[0]), \
+        ["fn:" + name] + ["arg:" + c for c in cls]
+
+
+FAMILIES["builtins"] = {"oracle": builtin_oracle, "features": builtin_features, "shrink": lambda c: []}
+FAMILIES["fmt"] = {"oracle": lambda c, o, e: ("unknown", "Go's formatting of this number differs from the model's"),
+                   "features": lambda c: (c[1], True, []), "shrink": lambda c: []}
+FAMILIES["parse"] = {"oracle": lambda c, o, e: ("unknown", "Go's parsing of this text differs from the model's"),
+                     "features": lambda c: (str(c[1]), True, []), "shrink": lambda c: []}
+
+PROPERTIES["C19"] = {
+    "families": [("builtins", 6000, 300000), ("parse", 1500, 100000), ("fmt", 300, 20000)],
+    "rule": "builtins: direct calls of the functions a runner offers to scripts (hook VerifCallBuiltin) on doubles from "
+            "random bit patterns, integers around 2^k, half-way cases, neighbours of integers, signed zeros, subnormals, "
+            "infinities/NaN (a fifth unbounded, the rest |x| < 2^52), n in 0..8 and out-of-range places, strings for "
+            "number()/bool(), wrong arity/types; each result is judged by exact rational arithmetic against the "
+            "contract and compared bit for bit with the model. parse/fmt validate the decimal<->binary64 models against "
+            "strconv/fmt. Non-trivial: a finite non-integral first argument.",
+    "assumptions": ["results are observed through the function table a fresh runner builds (same code path as a script call)"],
+}
